@@ -24,38 +24,23 @@ where
     }
 }
 
-impl IntoParallelSource for Range<u64> {
-    type Iter = Range<u64>;
-
-    fn generate_iterator(self, index: CoordUInt, peers: CoordUInt) -> Self::Iter {
-        let n = self.end - self.start;
-        let chunk_size = (n.saturating_add(peers - 1)) / peers;
-        let start = self.start.saturating_add(index * chunk_size);
-        let end = (start.saturating_add(chunk_size))
-            .min(self.end)
-            .max(self.start);
-
-        start..end
-    }
-}
-
 macro_rules! impl_into_parallel_source_range {
     ($t:ty) => {
         impl IntoParallelSource for Range<$t> {
             type Iter = Range<$t>;
 
             fn generate_iterator(self, index: CoordUInt, peers: CoordUInt) -> Self::Iter {
-                let index: i64 = index.try_into().unwrap();
-                let peers: i64 = peers.try_into().unwrap();
-                let n = self.end as i64 - self.start as i64;
-                let chunk_size = (n.saturating_add(peers - 1)) / peers;
-                let start = (self.start as i64).saturating_add(index * chunk_size);
-                let end = (start.saturating_add(chunk_size))
-                    .min(self.end as i64)
-                    .max(self.start as i64);
+                // i128 holds every bound of every supported type and all the intermediate values
+                let (index, peers) = (index as i128, peers as i128);
+                let (first, last) = (self.start as i128, self.end as i128);
+                // an empty or reversed range has no elements
+                let n = (last - first).max(0);
+                let chunk_size = (n + peers - 1) / peers;
+                // both bounds stay inside the range, hence inside the type
+                let start = (first + index * chunk_size).min(last).max(first);
+                let end = (start + chunk_size).min(last).max(start);
 
-                let (start, end) = (start.try_into().unwrap(), end.try_into().unwrap());
-                start..end
+                (start as $t)..(end as $t)
             }
         }
     };
@@ -64,6 +49,7 @@ macro_rules! impl_into_parallel_source_range {
 impl_into_parallel_source_range!(u8);
 impl_into_parallel_source_range!(u16);
 impl_into_parallel_source_range!(u32);
+impl_into_parallel_source_range!(u64);
 
 impl_into_parallel_source_range!(usize);
 
